@@ -159,6 +159,33 @@ def observe_select(dialect, text):
     return ('other', type(t).__name__)
 
 
+def observe_variable(dialect, text):
+    """parse `select <text>`; ('var', is_system, name) for a lone un-aliased Variable target"""
+    from mindsdb_sql import parse_sql
+    try:
+        a = parse_sql('select ' + text, dialect)
+    except Exception as e:
+        return ('exc', type(e).__name__)
+    if type(a).__name__ != 'Select' or len(a.targets) != 1 or a.from_table is not None or a.where is not None:
+        return ('other', type(a).__name__)
+    t = a.targets[0]
+    if getattr(t, 'alias', None) is not None:
+        return ('other', 'alias')
+    if type(t).__name__ != 'Variable':
+        return ('other', type(t).__name__)
+    return ('var', bool(t.is_system_var), t.value)
+
+
+_VARCLASS = re.compile(r'[a-zA-Z_.$]', re.I)
+
+
+def var_ok(name):
+    """Lean VarCodec.VarOK: the names some source text denotes"""
+    if not name or not _VARCLASS.fullmatch(name[0]):
+        return False
+    return bool(re.fullmatch(r'[a-zA-Z_.$]+', name)) or '`' not in name or '"' not in name or "'" not in name
+
+
 def first_token(dialect, text):
     """(type, value, end) of the first token the real lexer produces, or None on LexError / no token"""
     from mindsdb_sql import get_lexer_parser
